@@ -19,6 +19,7 @@ mod c08;
 mod c09;
 mod c10;
 mod c07;
+mod c17;
 
 fn main() {
     let args: Vec<String> = std::env::args().collect();
@@ -44,6 +45,7 @@ fn main() {
         "c09" => c09::main(rest),
         "c10" => c10::main(rest),
         "c07" => c07::main(rest),
+        "c17" => c17::main(rest),
         other => {
             eprintln!("unknown property {other}");
             std::process::exit(2);
